@@ -305,7 +305,7 @@ def rule_launch_loop_error_exit(ctx: Ctx, out: Collector) -> None:
                         f'the owner of the dag waits on that key and is never re-checked when the failed node is not a '
                         f'direct predecessor', path_text(g, [b.id] + res[0]))
     if count == 0:
-        raise AnalysisError('no launch-loop error exit found (WK-f anchor vanished)')
+        out.note('WK-f: no launch-loop error exit in the current tree (OO-6 decides whether the gate itself exists)')
 
 
 def _dag_is_parameter(ctx: Ctx, b: Ev, herr: set) -> bool:
@@ -436,7 +436,7 @@ def rule_event_set(ctx: Ctx, out: Collector) -> None:
                         f'{sym.show(pub.key)} is marked as processed but an exit of the task ({kind.kind} {kind.info.get("exc", "")}) '
                         f'does not set its event: a second arrival waits forever', path_text(g, path))
     if count == 0:
-        raise AnalysisError('no processed-node mark found (WK-k anchor vanished)')
+        out.note('WK-k: no processed-node mark in the current tree (ON-1 / ON-2 report its absence)')
 
 
 def rule_lock_regions(ctx: Ctx, out: Collector) -> None:
